@@ -513,10 +513,16 @@ def pipeline(ctx, quick):
                 (["EU", "ET"], "list", "fname"), (["ET", "EU"], "yaml", "fname")]
         if not quick: plan += [(["EL", "EU", "EH"], "yaml", "sens"), (["EI", "EH", "EU"], "list", "rich"), (["EC", "EB", "EC2"], "list", "dflt")]
         EXP["EC2"] = ([bsub], None)
+        intense = bool(getattr(ctx, "new_sites", {}).get("state"))
+        threads_set = (1, 2, 3) if intense else (1, 3)
+        if intense:
+            # an unreviewed piece of process-wide state: every sequence also in the opposite order, one more thread count
+            plan += [(seq[::-1], fmt, opt) for seq, fmt, opt in list(plan) if not any(s2 == seq[::-1] and o2 == opt for s2, _, o2 in plan)]
+            ctx.notes.append("whole runs intensified because of unreviewed state sites: every sequence in both orders, threads 1 / 2 / 3")
         jobs = []; alone = {}
         def common_of(name): return bcommon if name in ("EB", "EC", "EC2") else wcommon
         for k, (seq, fmt, opt) in enumerate(plan):
-            for t in (1, 3):
+            for t in threads_set:
                 d = os.path.join(root, "m%d_t%d" % (k, t)); os.makedirs(d)
                 desc = os.path.join(d, "experiments." + ("txt" if fmt == "list" else "yaml")); describe(desc, fmt, [(n,) + EXP[n] for n in seq])
                 jobs.append(dict(kind="multi", seq=seq, fmt=fmt, opt=opt, threads=t, out=os.path.join(d, "out"), desc=desc,
@@ -560,6 +566,7 @@ def pipeline(ctx, quick):
         def rep(j, **kw):
             r = {"run": j["kind"], "threads": j["threads"], "options": OPT[j["opt"]] if j["opt"] in OPT else j["opt"], "arguments": [a.replace(root, "<scratch>") for a in j["args"]]}
             if j["kind"] == "multi": r["experiments"] = j["seq"]; r["description file"] = open(j["desc"]).read().replace(root, "<scratch>")
+            if intense: r["unreviewed state sites found by the static scan"] = [e["site"] for e in ctx.new_sites.get("state", [])]
             if j.get("seed"): r["seeded class-level state"] = {k: (v if not isinstance(v, list) else v[:6] + ["... %d ids" % len(v)]) for k, v in j["seed"].items()}
             r.update(kw); return r
         for j in jobs:
@@ -687,11 +694,18 @@ def pipeline(ctx, quick):
         shutil.rmtree(root, ignore_errors=True)
 
 
+def scan_section(ctx, quick):
+    """process-wide state sites of the current source against the reviewed baseline (shared with C06: harness/props/c06_sites.json)"""
+    ctx.new_sites = {"order": [], "state": []}
+    from props.c06 import scan_sites
+    ctx.new_sites = scan_sites(ctx, kinds=("state",))
+
+
 def run(ctx):
     quick = ctx.tier == "quick"
     ctx.prepare("C10.v")
     ctx.rule("regenerated from the source on every run (tools/translate_extra.py -> coq/gen/Extra.v; bridged to the model by C10_polya_strategy_is_the_source): PolyAUsageStrategies and set_polya_requirement_strategy of src/dataset_processor.py")
-    for name in ("input_lists", "input_yaml", "combine_unit", "flags_unit", "pipeline"):
+    for name in ("scan_section", "input_lists", "input_yaml", "combine_unit", "flags_unit", "pipeline"):
         # one failing adapter must not keep the other sections (in particular the whole-run comparisons) from looking for a concrete failing configuration
         try: globals()[name](ctx, quick)
         except Exception: ctx.broken("harness:%s" % name, "exception in section %s:\n%s" % (name, traceback.format_exc()[-3000:]))
@@ -702,4 +716,5 @@ def run(ctx):
                       "and values with more than 15 significant digits are outside the combined-table model")
     ctx.assume.append("the model process_sample_* abstracts an experiment to (polyA fraction above threshold, unaligned reads, known isoforms passing the thresholds per chromosome); that "
                       "nothing else is carried between experiments rests on the scan of class attributes / module globals / args mutations in src/ and on the byte comparisons, not on a theorem")
+    ctx.assume.append("static scan of state sites (tools/scan_state.py against harness/props/c06_sites.json): syntactic; the verdict of every site is a reviewed judgement, not a theorem")
     ctx.assume.append("pysam / gffutils / pandas / PyYAML; fork start method of multiprocessing (workers inherit the parent's class-level state)")
